@@ -16,6 +16,7 @@ import (
 	"math/big"
 	"os"
 	"sort"
+	"strings"
 	"time"
 
 	"github.com/dappledger/AnnChain/chain/app/evm"
@@ -47,6 +48,7 @@ type poolModel struct {
 	ext         []*poolTx
 	lastBeat    map[int]time.Time
 	lastAccept  *poolTx // for the exact-duplicate check: accepted by the previous action
+	refused     [][]byte // well-formed submissions the pool refused (bounds, competing nonce)
 	overCap     bool    // the pool was at capacity at some point: the no-loss check is off for this run
 	waitLimit   int
 	pendLimit   int
@@ -135,6 +137,45 @@ func (w *world) poolSubmit(a simrt.Action) {
 		}
 		ptx.nonce = c + uint64(a.A)%uint64(chain)
 		raw = mk(ptx.nonce, a.C+1000000)
+	case "resubmit":
+		// a transaction the pool refused earlier comes back: whatever the answer, not "I already have it"
+		if len(pm.refused) == 0 {
+			return
+		}
+		raw = pm.refused[int(a.A)%len(pm.refused)]
+		if p := pm.byRaw[string(raw)]; p != nil {
+			return // has been accepted in the meantime
+		}
+		var err error
+		if !w.call(inc, "pool-submit", func() { err = inc.Pool.ReceiveTx(types.Tx(raw)) }) {
+			return
+		}
+		w.out.Evals["C19.resubmission"]++
+		// ("tx already exist in cache" is the pool's answer to exact duplicates; a refusal because another
+		// transaction holds that nonce reads "tx nonce already exist in cache" and is legitimate)
+		if err != nil && strings.HasPrefix(err.Error(), "tx already exist") {
+			w.viol("C19", "refused-transaction-remembered", "resubmit", "a transaction the pool had refused (and does not offer) is refused again as a duplicate: %v", err)
+		}
+		if err == nil {
+			// accepted now: register it like any accepted submission (its nonce is in the bytes)
+			var tx etypes.Transaction
+			if rlp.DecodeBytes(raw, &tx) == nil {
+				if from, e2 := etypes.Sender(etypes.HomesteadSigner{}, &tx); e2 == nil {
+					for i, ac := range w.accts {
+						if ac.addr == from {
+							np := &poolTx{acct: i, nonce: tx.Nonce(), ti: &txInfo{raw: raw, sender: i, nonce: tx.Nonce(), kind: "pool-resubmit", wellFormed: true}}
+							if pm.live[i] == nil {
+								pm.live[i] = map[uint64][]*poolTx{}
+							}
+							pm.live[i][np.nonce] = append(pm.live[i][np.nonce], np)
+							pm.byRaw[string(raw)] = np
+							pm.lastBeat[i] = time.Now()
+						}
+					}
+				}
+			}
+		}
+		return
 	case "dup":
 		if pm.lastAccept == nil {
 			return
@@ -183,6 +224,9 @@ func (w *world) poolSubmit(a simrt.Action) {
 	pm.lastAccept = nil
 	if err != nil {
 		w.out.Probes["pool-submit-refused:"+variant]++
+		if !ptx.ext && (variant == "next" || variant == "gap" || variant == "compete") {
+			pm.refused = append(pm.refused, raw)
+		}
 		return
 	}
 	ptx.ti = &txInfo{raw: raw, sender: ai, nonce: ptx.nonce, kind: "pool-" + variant, wellFormed: !ptx.ext}
@@ -454,7 +498,7 @@ func generatePool(r *simrt.Rand, cfg config) simrt.Case {
 	for i := 0; i < steps; i++ {
 		switch r.Pick([]int{60, 8, 10, 6, 5, 2, 2}) {
 		case 0:
-			kinds := []string{"next", "next", "next", "gap", "stale", "compete", "dup", "ext", "garbage"}
+			kinds := []string{"next", "next", "next", "gap", "stale", "compete", "dup", "ext", "garbage", "resubmit"}
 			k := kinds[r.Intn(len(kinds))]
 			acct := r.Intn(cfg.Accounts)
 			if heavy && r.Chance(3, 4) {
